@@ -358,6 +358,16 @@ def modify(kg, container, inter_name, fname, f, work, k, last_sub, direct=False)
         REC.skip("kg.modify", "grid-already-inconsistent")
         return None
     rec = Recorder(f)
+    if fname.endswith("+default-arg"):
+        # the callback a caller writes in a loop (`lambda v, k=k: v * k`): one value in, its other parameter has a default
+        seen_ = rec.seen
+
+        def rec2(v, factor=1.0625):  # noqa: the second parameter is never passed by the documented contract
+            seen_.append(v)
+            return v * factor  # (= f(v) as long as nobody hands the callback a second argument)
+
+        rec2.seen = seen_
+        rec = rec2
     big = len(flatten(before)) >= 600
     case = {"call": "kg.modify", "container": container, "inter": inter_name, "func": fname, "grid": before if not big else None,
             "grid_zb64": _pack(before) if big else None, "direct": direct}
@@ -502,6 +512,7 @@ FUNCS = {
     "int(v)": lambda v: int(v), "x10": lambda v: v * 10,
     # every 5 becomes a 7, every 1 a 2: other values, written with exactly as many characters as before
     "5to7": lambda v: float(repr(float(v)).replace("5", "7").replace("1", "2")),
+    "x1.0625+default-arg": lambda v: v * 1.0625,
 }
 
 
@@ -535,6 +546,13 @@ def rand_points(rng, hi, nmax=5, lo=0):
     w = hi - lo
     ts = sorted({rng.choice([lo + rng.uniform(0, w), lo + rng.randrange(0, int(w * 1000)) / 1000, lo + rng.randrange(0, int(w * 8)) / 8]) for _ in range(n)})
     pts = [(t, rand_value(rng)) for t in ts if lo <= t <= hi]
+    if rng.random() < 0.25:
+        # a track sampled up to and including the end of its span (or from its very start): the first / last point sits exactly on
+        # the span's edge
+        edge = rng.choice([hi, hi, lo])
+        if all(t != edge for t, _v in pts):
+            pts = sorted(pts + [(edge, rand_value(rng))])
+            REC.cls("C19:kg:point-exactly-on-the-span-edge")
     if pts and rng.random() < 0.06:
         # the very same point listed twice (two different values at one time would come back ordered by value - the reader sorts -,
         # which a value-reversing modification turns round: the order among such points is left out of the comparison by not making them)
@@ -658,7 +676,7 @@ def _workload(tier, rng, shard, nshards, work):
                 if call(lambda: (kg2.save(out2), True)[1]) and open(out, "rb").read() != open(out2, "rb").read():
                     REC.violation(PROP, "kg.reopen", "save;open;save", {"call": "kg.reopen", "file": text, "ins": ins}, "re-saving the unmodified reopened grid changed the text", ("resave",), {"op": "kg.resave"})
                 kg = kg2
-        fname = rng.choice(sorted(FUNCS))
+        fname = rng.choice(sorted(FUNCS) + ["x1.0625+default-arg"] * 2)
         container, inter = rng.choice([("oral_formants", "formants"), ("oral_formants", "bandwidths"), ("oral_formants", "bandwidths"), ("frication_formants", "formants"),
                                        ("frication_formants", "bandwidths"), ("frication_formants", "bandwidths"),
                                        ("nasal_formants", "formants"), ("delta_formants", "formants"), ("frication_formants", "frication_formants_amplitudes"),
